@@ -110,7 +110,8 @@ func StrA(a A) string     { return deriveGoStringA(a) }
 func StrB(a B) string     { return deriveGoStringB(a) }
 `
 
-// the unnamed form is registered by the user as well, between the two named ones
+// many helpers; M2 is only compared with Equal: two named map types over one underlying type that both
+// need a keys helper make goderive loop forever (reported by the C09 check), which would hide this package
 const amb2 = `package amb2
 
 type A []int
@@ -123,7 +124,6 @@ type S struct {
 	Y  B
 	Z  []int
 	M  M1
-	N  M2
 	O  map[string]A
 	P  *A
 	Q  *B
@@ -138,11 +138,9 @@ func EqS(a, b *S) bool     { return deriveEqual(a, b) }
 func EqM2(a, b M2) bool    { return deriveEqualM2(a, b) }
 func CmpB(a, b B) int      { return deriveCompareB(a, b) }
 func CmpS(a, b *S) int     { return deriveCompare(a, b) }
-func CmpM2(a, b M2) int    { return deriveCompareM2(a, b) }
 func HashS(a *S) uint64    { return deriveHash(a) }
 func CloneS(a *S) *S       { return deriveClone(a) }
 func StrS(a *S) string     { return deriveGoString(a) }
-func KeysM1(m M1) []string { return deriveKeys(m) }
 func SortZ(z []int) []int  { return deriveSort(z) }
 `
 
@@ -284,6 +282,14 @@ func randomPkg(r *rand.Rand, name string) string {
 	for _, d := range namedPool {
 		fmt.Fprintf(&sb, "type %s %s\n\n", d.name, d.def)
 	}
+	// Two named map types over one underlying type, both handed to a plugin that asks for their keys, make
+	// goderive loop forever (reported by C09). Most random packages therefore use only one of M1 / M2.
+	banned := ""
+	if r.Intn(4) != 0 {
+		banned = []string{"M1", "M2"}[r.Intn(2)]
+		stats["packages_with_one_named_map_only"]++
+	}
+	usable := func(t string) bool { return banned == "" || !strings.Contains(t, banned) }
 	nstruct := 2 + r.Intn(3)
 	var targets []string // type expressions derive calls are made for
 	for i := 0; i < nstruct; i++ {
@@ -302,6 +308,9 @@ func randomPkg(r *rand.Rand, name string) string {
 				fallthrough
 			default:
 				t = unnamedPool[r.Intn(len(unnamedPool))]
+			}
+			if !usable(t) {
+				t = "map[string]int"
 			}
 			fmt.Fprintf(&sb, "\tF%d %s\n", j, t)
 		}
@@ -323,6 +332,9 @@ func randomPkg(r *rand.Rand, name string) string {
 		return t == u || under[t] == u || under[u] == t
 	}
 	for ti, t := range targets {
+		if !usable(t) {
+			continue
+		}
 		// several plugins per target
 		perm := r.Perm(len(typed))
 		k := 2 + r.Intn(5)
